@@ -1762,6 +1762,24 @@ ROUTE_FORMS = [
     ("comp-in-setcomp", ["return len({1 for x in range(2)})"]),
     ("comp-in-dictcomp", ["return {1: 2 for x in range(2)}"]),
 ]
+# the too_many_positional_args producer: >= 10 positionals next to every kind of keyword argument
+TMPA_PRELUDE = [
+    "def bigk(a, b, c, d, e, f, g, h, i, j, *, k=0, m=0):", "    return (a, j, k, m)",
+    "def bigr(a, b, c, d, e, f, g, h, i, j, *, k, m=0):", "    return (a, j, k, m)",
+]
+TMPA_FORMS = [
+    ("tmpa-no-keywords", ["return bigk(a, b, c, 4, 5, 6, 7, 8, 9, 10)"]),
+    ("tmpa-keyword", ["return bigk(a, b, c, 4, 5, 6, 7, 8, 9, 10, k=a)"]),
+    ("tmpa-two-keywords", ["return bigk(a, b, c, 4, 5, 6, 7, 8, 9, 10, m=b, k=a)"]),
+    ("tmpa-mapping", ["return bigk(a, b, c, 4, 5, 6, 7, 8, 9, 10, **{\"k\": a})"]),
+    ("tmpa-keyword-mapping", ["return bigk(a, b, c, 4, 5, 6, 7, 8, 9, 10, m=b, **{\"k\": a})"]),
+    ("tmpa-mapping-keyword", ["return bigk(a, b, c, 4, 5, 6, 7, 8, 9, 10, **{\"k\": a}, m=b)"]),
+    ("tmpa-two-mappings", ["return bigk(a, b, c, 4, 5, 6, 7, 8, 9, 10, **{\"k\": a}, **{\"m\": b})"]),
+    ("tmpa-required-kwonly-mapping", ["return bigr(a, b, c, 4, 5, 6, 7, 8, 9, 10, **{\"k\": a})"]),
+    ("tmpa-required-kwonly-var", ["kw = {\"k\": a, \"m\": b}", "return bigr(a, b, c, 4, 5, 6, 7, 8, 9, 10, **kw)"]),
+    ("tmpa-multi-line", ["return bigk(a, b, c, 4, 5,", "            6, 7, 8, 9, 10,", "            m=b,", "            **{\"k\": a})"]),
+    ("tmpa-nested", ["return coll(bigk(a, b, c, 4, 5, 6, 7, 8, 9, 10, **{\"k\": a}), z=1)"]),
+]
 MODULE_ROUTE_FORMS = [
     ("module-aug-mod", ["FMT = \"%s items\"", "FMT %= 3"]),
     ("module-binop", ["MSG = \"%s!\" % __name__"]),
@@ -1773,6 +1791,8 @@ def route_programs(ctx):
     progs = [("route:" + n, build_ctx_program(b), "fix") for n, b in ROUTE_FORMS]
     for n, b in MODULE_ROUTE_FORMS:
         progs.append(("route:" + n, list(CTX_PRELUDE) + b + ["def t0(a, b, c):", "    return a"], "fix"))
+    for n, b in TMPA_FORMS:
+        progs.append(("route:" + n, list(CTX_PRELUDE) + TMPA_PRELUDE + ["def t0(a, b, c):"] + ["    " + l for l in b], "nodefix"))
     return progs
 
 
@@ -1892,6 +1912,20 @@ def fix_case(ctx, case, lines, with_model, cap, profile="fix"):
                 if not ok:
                     problems.append(("locality", "round %d: rewriting the statement on line %d for %s changed the tree outside that statement" % (k, st.lineno, code)))
                 # exactness: the fixed file is the original tree with exactly the intended node replaced
+                tn, nn = info.get("target"), info.get("new_node")
+                if code == "too_many_positional_args" and tn and isinstance(nn, ast.Call):
+                    oc = [n for n in ast.walk(old_tree) if isinstance(n, ast.Call) and (n.lineno, n.col_offset, n.end_lineno, n.end_col_offset) == tn[1:]]
+                    if len(oc) == 1:
+                        oc = oc[0]
+                        d = lambda x: ast.dump(x)
+                        npos = len(oc.args)
+                        ok = (not nn.args and d(nn.func) == d(oc.func) and len(nn.keywords) == npos + len(oc.keywords)
+                              and all(k.arg is not None for k in nn.keywords[:npos])
+                              and [d(k.value) for k in nn.keywords[:npos]] == [d(a_) for a_ in oc.args]
+                              and [d(k) for k in nn.keywords[npos:]] == [d(k) for k in oc.keywords])
+                        if not ok:
+                            problems.append(("exact", "round %d: the call proposed for too_many_positional_args is not the original call with only its %d positional arguments turned into keywords (%d keyword arguments instead of %d)" % (
+                                k, npos, len(nn.keywords), npos + len(oc.keywords))))
                 want = exact_replacement_dump(old_tree, info)
                 if want is None:
                     ctx.tag("fix_target_not_located")
